@@ -142,12 +142,65 @@ def nd_cases(run, rng, n, max_dim):
     run.sample({"nd_case": {"func": func, "shape": shape, "label_shape": list(lshape), "axis": list(axes)}})
 
 
+def xr_nd_cases(run, rng, n):
+    """xarray_reduce with 2-D / 3-D label variables and dim a subset of their dimensions, listed in any order: every kept index
+    must hold the 1-D grouped reduction of its slice (native xarray refuses these requests, NumPy slice-by-slice is the oracle)"""
+    import numpy as np
+    import xarray as xr
+
+    import flox.xarray as fx
+
+    for _ in range(n):
+        nd = rng.randint(2, 4)
+        ld = rng.randint(2, min(3, nd))
+        side = rng.choice([2, 3])
+        # equal lengths (a cube) most of the time: a mis-aligned label array is then silently accepted
+        shape = [rng.choice([2, 3]) if (i < nd - ld or rng.random() < 0.25) else side for i in range(nd)]
+        names = ["a", "b", "c", "d"][:nd]
+        ng = rng.randint(2, 3)
+        func = rng.choice(["sum", "count", "max", "nanmean", "nansum"])
+        vals = np.array([float(rng.choice(G.ALPHA_FINITE)) for _ in range(int(np.prod(shape)))]).reshape(shape)
+        if func in ("count", "nanmean", "nansum"):
+            vals[np.array([rng.random() < 0.15 for _ in range(vals.size)]).reshape(shape)] = np.nan
+        labels = np.array([rng.randrange(ng) for _ in range(int(np.prod(shape[nd - ld:])))]).reshape(shape[nd - ld:])
+        k = rng.randint(1, ld)
+        red = rng.sample(names[nd - ld:], k)          # any order
+        axes = [names.index(d) for d in red]
+        want = oracle_nd(func, vals, labels.astype(float), axes, ng)
+        kept = [d for d in names if d not in red]
+        obj = xr.DataArray(vals, dims=names, name="v")
+        by = xr.DataArray(labels, dims=names[nd - ld:], name="lab")
+        perm = names[:]
+        rng.shuffle(perm)
+        variants = [("eager", obj), ("eager-transposed", obj.transpose(*perm)),
+                    ("chunked", obj.chunk({d: rng.randint(1, shape[i]) for i, d in enumerate(names)}))]
+        for mode, o in variants:
+            try:
+                with warnings.catch_warnings():
+                    warnings.simplefilter("ignore")
+                    res = fx.xarray_reduce(o, by, func=func, dim=red if len(red) > 1 or rng.random() < 0.5 else red[0],
+                                           expected_groups=np.arange(ng), fill_value=np.nan)
+                    got = np.asarray(res.transpose(*kept, "lab").compute().values, dtype=float)
+            except (ValueError, NotImplementedError):
+                run.extra["refused_cases"] = run.extra.get("refused_cases", 0) + 1
+                continue
+            run.count(f"xrnd|{shape}|{labels.tolist()}|{red}|{mode}|{func}|{vals.tolist()}", k < ld)
+            if got.shape != want.shape or not np.allclose(got, want, equal_nan=True):
+                run.violation({"property": "C08", "kind": "xarray_reduce over a subset of the label dims differs from slice-by-slice evaluation",
+                               "func": func, "mode": mode, "dims": names, "shape": shape, "label_dims": names[nd - ld:], "dim": red,
+                               "vals": [I.fnum(x) for x in vals.reshape(-1)], "labels": labels.reshape(-1).tolist(),
+                               "got": [I.fnum(x) for x in got.reshape(-1)][:40], "want": [I.fnum(x) for x in want.reshape(-1)][:40]}, tag="xrnd")
+                break
+    run.sample({"xarray_nd_case": {"dims": names, "label_dims": names[nd - ld:], "dim": red, "func": func}})
+
+
 def run(run: C.Run):
     rng = random.Random(run.seed)
     P.front(run, translators=())
     thorough = run.tier == "thorough"
     offset_cases(run, rng, 4000 if thorough else 800)
     nd_cases(run, rng, 5000 if thorough else 700, 3)
+    xr_nd_cases(run, rng, 1500 if thorough else 250)
     if any(not o[1] for o in run.obligations) and not run.violations:
         run.violation({"property": "C08", "kind": "proof obligation / correspondence no longer checks",
                        "failed": P.failed_obligations(run)}, nofail=True, tag="obligation")
